@@ -18,6 +18,8 @@ inductive Truth where
 
 structure St where
   truth : List Truth := []
+  /-- nodes that left gracefully or were force-left at some point of the scenario (and may have restarted since) -/
+  everLeft : List Nat := []
   dead : Bool := false     -- the harness could not set the scenario up (node/join error): rest is skipped
   deriving Inhabited
 
@@ -62,7 +64,11 @@ def monitorSettle (s : St) (views : List (String × List (String × String))) (m
         let st := alookup v (nameOf m)
         match s.truth.getD m .crashed, st with
         | .running, some "alive" => none
-        | .running, some x => some ("running-not-alive", s!"{a} lists running {nameOf m} as {x}")
+        | .running, some x =>
+          -- the recorded finding: a member that left (or was force-left) and came back is stuck `leaving`
+          -- at a peer that merged a stale "left" claim after seeing it alive again
+          some (if x == "leaving" && s.everLeft.contains m then "rejoined-stuck-leaving" else "running-not-alive",
+                s!"{a} lists running {nameOf m} as {x}")
         | .running, none => some ("running-absent", s!"{a} does not list running {nameOf m}")
         | .left, some "left" => none
         | .left, none => none
@@ -85,12 +91,12 @@ def step (s : St) (op : List String) (impl : String) : LineOut St :=
   match op with
   | ["nodes", k] =>
     match k.toNat? with
-    | some k => { state := { truth := List.replicate k .running }, model := some "ok" }
+    | some k => { state := { truth := List.replicate k .running, everLeft := [] }, model := some "ok" }
     | none => { state := s, model := some "bad-op" }
   | ["join", _, _] => { state := s, model := some "ok" }
   | ["leave", a] =>
     match a.toNat? with
-    | some a => { state := setTruth s a .left, model := some "ok" }
+    | some a => { state := { setTruth s a .left with everLeft := a :: s.everLeft }, model := some "ok" }
     | none => { state := s, model := some "bad-op" }
   | ["kill", a] =>
     match a.toNat? with
@@ -104,7 +110,7 @@ def step (s : St) (op : List String) (impl : String) : LineOut St :=
   | ["heal"] => { state := s, model := some "ok" }
   | ["forceleave", _, b] =>
     match b.toNat? with
-    | some b => { state := (if s.truth.getD b .running == .crashed then setTruth s b .forceleft else s), model := some "ok" }
+    | some b => { state := (if s.truth.getD b .running == .crashed then { setTruth s b .forceleft with everLeft := b :: s.everLeft } else s), model := some "ok" }
     | none => { state := s, model := some "bad-op" }
   | ["sleep", _] => { state := s, model := some "ok" }
   | "settle" :: _ =>
